@@ -297,21 +297,29 @@ def run_driver(ctx, mode, case_files, impl_files=None, dbg=False):
         procs.append(subprocess.Popen(["sh", "-c", "ulimit -s unlimited 2>/dev/null; exec \"$@\"", "sh"] + cmd,
                                       stdout=subprocess.PIPE, stderr=subprocess.PIPE, text=True))
     outs = []
-    for p in procs:
-        o, e = p.communicate()
-        if p.returncode != 0:
-            raise RuntimeError("driver %s failed: %s" % (mode, e[-2000:]))
+    results = [p.communicate() + (p.returncode,) for p in procs]
+    for idx, (o, e, rc) in enumerate(results):
+        if rc is not None and rc < 0:
+            # killed by a signal (the kernel's out-of-memory killer when several memory-hungry shards run side by
+            # side): run this shard again on its own, after all the others have finished
+            ctx.notes.append("driver %s shard %d was killed by signal %d; re-run alone" % (mode, idx, -rc))
+            p = subprocess.Popen(procs[idx].args, stdout=subprocess.PIPE, stderr=subprocess.PIPE, text=True)
+            o, e = p.communicate()
+            results[idx] = (o, e, p.returncode)
+    for o, e, rc in results:
+        if rc != 0:
+            raise RuntimeError("driver %s failed (rc=%s): %s" % (mode, rc, e[-2000:]))
         outs.append(o.split("\n")[:-1] if o.endswith("\n") else o.split("\n"))
     return outs
 
 
-def run_batch(ctx, lines, dbg=False, want_model=True, want_check=True, cap=20):
+def run_batch(ctx, lines, dbg=False, want_model=True, want_check=True, cap=20, procs=None):
     """returns (impl, model, verdicts) line lists"""
     if not lines:
         return [], [], []
     ctx.batch_no += 1
     base = os.path.join(ctx.work, "b%d" % ctx.batch_no)
-    chunks = shard(lines, NPROC)
+    chunks = shard(lines, procs or NPROC)   # procs: fewer shards for components whose cases need gigabytes each
     nchunks = len(chunks)
     cfs = []
     for i, ch in enumerate(chunks):
@@ -375,10 +383,10 @@ def failed_clauses(verdict):
     return int(t[0]), set(t[1:])
 
 
-def evaluate(ctx, name, lines, relevant, dbg=False, x=True, nontrivial=None, cap=20):
+def evaluate(ctx, name, lines, relevant, dbg=False, x=True, nontrivial=None, cap=20, procs=None):
     """Run one batch.  relevant: set of clause names (or fn(comp, kv) -> set) that
     decide this property.  Records K failures and X mismatches in ctx."""
-    impl, model, verd = run_batch(ctx, lines, dbg=dbg, want_model=x, cap=cap)
+    impl, model, verd = run_batch(ctx, lines, dbg=dbg, want_model=x, cap=cap, procs=procs)
     nclauses = 0
     for i, line in enumerate(lines):
         comp, kv = parse_line(line)
